@@ -122,6 +122,17 @@ def run(R):
             hs.append({"id": R.next_id(), "cls": "mac", "mac": "poly1305", "key": rnd("twice%d" % j),
                        "ev": [{"op": "new"}, {"op": "input", "x": 1, "data": msgstream[:n]}, {"op": first, "x": 1}, {"op": second, "x": 1}]})
             R.count(("twice", n, first, second))
+    # clones: taken mid-message (with bytes staged) both copies continue independently; taken after the tag was read the copy returns the same tag
+    for j, (n1, n2) in enumerate([(5, 20), (16, 7), (33, 0), (0, 17)]):
+        k = rnd("clone%d" % j)
+        a, b = msgstream[500:500 + n1], msgstream[600:600 + n2]
+        hs.append({"id": R.next_id(), "cls": "mac", "mac": "poly1305", "key": k,
+                   "ev": [{"op": "new"}, {"op": "input", "x": 1, "data": a}, {"op": "clone", "x": 1, "y": 2}, {"op": "input", "x": 2, "data": b}, {"op": "result", "x": 2},
+                          {"op": "input", "x": 1, "data": b[::-1]}, {"op": "raw_result", "x": 1}]})
+        hs.append({"id": R.next_id(), "cls": "mac", "mac": "poly1305", "key": k,
+                   "ev": [{"op": "new"}, {"op": "input", "x": 1, "data": a + b}, {"op": "result", "x": 1}, {"op": "clone", "x": 1, "y": 2}, {"op": "result", "x": 2}, {"op": "raw_result", "x": 2},
+                          {"op": "raw_result", "x": 1}]})
+        R.count(("clone", n1, n2))
     # the same classes under keys of full size (every limb of r in play): the block before last is solved backwards from the final accumulator wanted,
     # for messages of two to four blocks with and without a trailing block
     for cls in polycraft.GENERIC_CLASSES:
